@@ -12,4 +12,4 @@ Separate Extraction GrowModel.cfg_step GrowModel.cfg_init GrowModel.cfg_shape Gr
   Gen_OpenN1_ops.pvSetEmpty Gen_OpenN1_ops.AddCrt Gen_OpenN1_ops.Remove Gen_OpenN1_ops.Clear Gen_OpenN1_ops.pvGetCount Gen_OpenN1_ops.IsFull Gen_OpenN1.UpdateMaxProbe
   Gen_P4A.AddCrt Gen_P4A.Remove Gen_P4A.Clear Gen_P4A.IsFull Gen_P4A.WasFull Gen_P4A.pvGetCount Gen_P4A.pvSetEmpty Gen_P4A.pvGetMemPoolIndex
   Gen_One.AddCrt Gen_One.Remove Gen_One.Clear Gen_One.IsFull Gen_One.WasFull
-  Gen_HashSetMove.pvAddNogrow_loop0 Gen_HashSetMove.pvRelocateItems_b_loop0.
+  Gen_HashSetMove.pvAddNogrow Gen_HashSetMove.pvAddNogrow_loop0 Gen_HashSetMove.pvRelocateItems_b_loop0.
